@@ -15,14 +15,14 @@ import (
 type OKind int
 
 const (
-	OAlloc   OKind = iota // Alloc, MakeMap, MakeSlice, MakeChan, MakeClosure, composite literal
-	OConst                // non-nil constant
-	ONil                  // nil constant
-	OGlobal               // value loaded from / address of a package-level variable
-	OParam                // parameter that was not expanded (no callers known or depth exhausted)
-	OField                // load of a struct field that was not expanded
-	OElem                 // element of a map / slice / array / range iteration; Base is the container
-	OExtern               // result of a call without analysable body or a dynamic call
+	OAlloc  OKind = iota // Alloc, MakeMap, MakeSlice, MakeChan, MakeClosure, composite literal
+	OConst               // non-nil constant
+	ONil                 // nil constant
+	OGlobal              // value loaded from / address of a package-level variable
+	OParam               // parameter that was not expanded (no callers known or depth exhausted)
+	OField               // load of a struct field that was not expanded
+	OElem                // element of a map / slice / array / range iteration; Base is the container
+	OExtern              // result of a call without analysable body or a dynamic call
 	OUnknown
 )
 
